@@ -661,8 +661,30 @@ class MemcfgAdapter(Adapter):
         return obj.get_yaml()
 
     def size(self, inst, obj, data):
-        # the count rule may name more words than the peripheral has registers (OptionSize = 15): the words that exist count
-        return 4 * min(obj.option_words_count, len(obj.regs.get_registers()))
+        # the count rule of the database, evaluated here on the raw value of option word 0 (bit positions and the value
+        # named "UserDefined" from the register specification); the rule may name more words than the peripheral has
+        # registers (OptionSize = 15): the words that exist count
+        regs = obj.regs.get_registers()
+        rule = _db_get(inst["family"], inst["revision"], "memcfg", ["peripherals", inst["peripheral"], "ow_counts_rule"], None)
+        word0 = regs[0].get_value()
+
+        def field(name):
+            bf = next(b for b in regs[0]._bitfields if b.name == name)  # pylint: disable=protected-access
+            return bf, (word0 >> bf.offset) & ((1 << bf.width) - 1)
+
+        if rule == "All":
+            count = len(regs)
+        elif rule == "OptionSize":
+            count = 1 + field("OptionSize")[1]
+        elif rule == "AcTimingMode":
+            bf, raw = field("AcTimingMode")
+            user_defined = [e.get_value_int() for e in bf.get_enums() if e.name == "UserDefined"]
+            if not user_defined:
+                raise RuntimeError("no value named UserDefined in the specification of AcTimingMode")
+            count = len(regs) if raw in user_defined else 1
+        else:
+            raise RuntimeError(f"count rule {rule!r} is not one the reference knows")
+        return 4 * min(count, len(regs))
 
     def dump(self, obj, regs=None):
         return list(obj.option_words)
